@@ -90,7 +90,12 @@ class SortableDict(col.MutableMapping):
 
             if index is not None:
                 # We are re-locating.
+                old_index = self._order.index(key)
                 del self[key]
+                if (pos_key is not None) and (old_index < index):
+                    # The position of pos_key was looked up before the key
+                    # was removed from in front of it: it has moved down one.
+                    index -= 1
             else:
                 # We are updating
                 self._values[key] = value
